@@ -168,7 +168,9 @@ func (rule *RulePyflakes) parseNextError(stdout []byte, pos *Pos) ([]byte, error
 
 	// This method needs to be thread-safe since concurrentProcess.run calls its callback in a different goroutine.
 	rule.mu.Lock()
-	rule.Errorf(pos, "pyflakes reported issue in this script: %s", msg)
+	// The message echoes names in the script. CR and other line breaks in the middle of the line must be replaced since
+	// the message must be in one line
+	rule.Errorf(pos, "pyflakes reported issue in this script: %s", replaceLineBreaks(string(msg)))
 	rule.mu.Unlock()
 
 	return b, nil
